@@ -12,6 +12,12 @@ CHECKS = {
  "C14": (MC, "explicit-state breadth-first search over setter-operation histories on real CovModel objects; every reached state compared with a reference state machine (documented update rules + documented bounds) and with a freshly constructed model (differential oracle)",
          "All sequences of setter operations up to the depth bound (quick 2, thorough 3) from every (class x plain/temporal/latlon/latlon+temporal x dim) start state are executed on the real objects; states are de-duplicated by the canonical reference state; each history is replayed from a fresh object, so every trace is validated against the implementation.",
          "operation alphabet and depth bound as listed in the evidence file; legality = documented default bounds or custom bounds; operations outside the alphabet are not explored", "5/C14"),
+ "C11": (MC, "explicit-state breadth-first search over call / re-seed / in-place-edit histories on real SRF+generator objects with a freshly constructed generator as differential oracle; plus complete enumeration of subsets, permutations, batch splits and mesh types of a point set",
+         "All histories up to depth 3 (thorough 4) over an alphabet of generating calls (identical and equal-but-distinct seed objects, kept seed, new/close/grid positions), in-place model edits and restorations, model re-assignment and generator setting changes are executed on RandMeth, IncomprRandMeth and Fourier generators; every history is replayed from scratch on the real objects (twice, for the two seed-identity classes) and compared with a fresh object. Locality is decided by enumerating all 31 subsets, 24 permutations and 30 splits per configuration.",
+         "bounded depth and alphabet; nugget models judged by seed-object independence only; parameter changes below the library's isclose tolerance not in the alphabet", "5/C11"),
+ "C17": (MC, "exhaustive product enumeration of Fourier-generator configurations with shift-by-period oracle, plus breadth-first search over period / mode_no / model update histories on the real generator",
+         "Full product model x dim 1-3 x anisotropy x rotation x period x even mode counts x seeds, each checked at lattice and off-grid points for shifts of +-1, +-2 periods along every main axis (explicit rotation matrices from the documented convention), with a half-period negative control; BFS (depth 3/4) over update histories checks periodicity for the current settings and equality with a fresh generator after every call.",
+         "periodicity judged to 1e-9 of the field amplitude; bounded depth and alphabet", "5/C17"),
 }
 PENDING = {}
 def main():
